@@ -316,6 +316,7 @@ pub fn run(cfg: &Cfg) {
     let cases = crate::replay_cases(cfg).unwrap_or_else(|| generate(cfg));
     let mut out = Out::new(&cfg.out);
     for c in &cases {
+        out.announce(c);
         let (ans, o, nt) = exec(c);
         let t: Vec<&str> = c.splitn(4, ' ').collect();
         out.stat(&format!("{}/C{}", t[1], t[2]));
